@@ -746,6 +746,13 @@ where
                             self.buffer.pop_front();
                         }
                     }
+                    if self.end > 0 && self.begin < 0 {
+                        //the buffer only holds the items before end, discard those that come before the (end-relative) begin
+                        let skip = (self.cursor as usize).saturating_sub(self.begin.unsigned_abs());
+                        for _ in 0..skip.min(self.buffer.len()) {
+                            self.buffer.pop_front();
+                        }
+                    }
                     if self.end < 0 {
                         //discard some items at the end which we do not want
                         for _ in 0..self.end.abs() {
